@@ -54,7 +54,7 @@ Proof. intros. apply transient_irrelevant. Qed.
 (* ---------- what the theorem excludes: the engine before fix 668324a ---------- *)
 
 Definition leak_store : xstore :=
-  {| xs_base := {| objs := [mk 1 0 TSym]; next_uid := 2 |}; xs_present := [] |}.
+  {| xs_base := {| objs := [mk 1 0 (TSym, 0)]; next_uid := 2 |}; xs_present := [] |}.
 Definition leak_probe : xrequest :=
   {| q_ver := 12; q_stamp := StampAbsent; q_async := None; q_undo := false; q_cont := false; q_ids_ok := false;
      q_items := [{| x_item := {| i_op := OAddr AGet None; i_gate := true |}; x_present := [] |}] |}.
@@ -71,7 +71,7 @@ Qed.
 Example leftovers :
   snd (snd (process_request init_xstore fresh_transient 2
      {| q_ver := 20; q_stamp := StampAbsent; q_async := None; q_undo := false; q_cont := false; q_ids_ok := false;
-        q_items := [{| x_item := {| i_op := OCreate; i_gate := true |}; x_present := [[]] |}] |}))
+        q_items := [{| x_item := {| i_op := OCreate 0; i_gate := true |}; x_present := [[]] |}] |}))
   = {| t_ph := Some 1; t_ver := 20; t_apv := 20; t_ident := 2; t_async := false |}.
 Proof. vm_compute. reflexivity. Qed.
 
